@@ -20,6 +20,7 @@ type gctx struct {
 	noSub   bool // C08 domain: no subtypes
 	noIface bool
 	built   bool // some functions are assembled with BuildFunc
+	derived []Field // requirements already made derivable through a converter
 }
 
 func (c *gctx) sub() string {
@@ -194,7 +195,21 @@ func (c *gctx) derive(f Field, depth int, convs *[]int) []Opt {
 	nin := []int{0, 1, 1, 1, 1, 2, 2, 3}[c.r.intn(8)]
 	in := c.fields(FStruct, nin)
 	shared := map[int]bool{}
-	if len(*convs) > 0 && c.r.chance(35) {
+	if len(c.derived) > 0 && c.r.chance(35) {
+		// one input is a requirement that is ALREADY derivable through another
+		// converter of this scenario: that converter is then needed on two paths
+		g := c.derived[c.r.intn(len(c.derived))]
+		dup := g.Name == f.Name && g.Ty == f.Ty && g.Sub == f.Sub
+		for _, x := range in {
+			if (x.Name != "" && x.Name == g.Name) || (x.Name == "" && g.Name == "" && x.Ty == g.Ty) {
+				dup = true
+			}
+		}
+		if !dup {
+			in = append(in, g)
+			shared[len(in)-1] = true
+		}
+	} else if len(*convs) > 0 && c.r.chance(20) {
 		// one input is something an earlier converter of this scenario already
 		// produces: that converter is then needed on several paths
 		d := c.sc.Funcs[(*convs)[c.r.intn(len(*convs))]]
@@ -236,6 +251,7 @@ func (c *gctx) derive(f Field, depth int, convs *[]int) []Opt {
 	}
 	fi := c.addFunc(in, out, c.formFor(in), c.formFor(out))
 	*convs = append(*convs, fi)
+	c.derived = append(c.derived, f)
 	var opts []Opt
 	for i, g := range in {
 		if shared[i] {
@@ -460,6 +476,25 @@ func genConvertScenario(c *gctx) {
 		return
 	}
 	t := c.ty()
+	if r.chance(8) {
+		// the interface type error as target: func(error) error has no output,
+		// only an error result -- a resolvable conversion fails with the injected value
+		src := c.cty()
+		var opts []Opt
+		switch r.intn(3) {
+		case 0:
+			opts = []Opt{{Kind: "typed", Vals: []*Val{{Serial: c.serial + 1, Ty: 6}}}}
+			c.serial++
+		case 1:
+			fi := c.addFunc([]Field{{Ty: src}}, []Field{{Ty: 6}}, FPos, FPos)
+			c.sc.Funcs[fi].Err, c.sc.Funcs[fi].Once = false, false
+			opts = []Opt{{Kind: "typed", Vals: []*Val{c.val(src)}}, {Kind: "conv", Fns: []int{fi}}}
+		default:
+			opts = []Opt{{Kind: "typed", Vals: []*Val{c.val(src)}}}
+		}
+		c.sc.Ops = append(c.sc.Ops, Op{Kind: "convert", Ty: 12, Opts: opts})
+		return
+	}
 	var convs []int
 	var opts []Opt
 	if !r.chance(15) {
